@@ -106,7 +106,7 @@ def run(args) -> int:
         L = byname[n]
         chk.count('subject', rec['subject'])
         nontriv = len(rec['lits']) >= 2
-        chk.case([n, rec['subject'], rec['world'], rec['lits']], nontrivial=nontriv,
+        chk.case([n, rec['subject'], rec['world'], rec['lits'], rec.get('build'), rec.get('copies')], nontrivial=nontriv,
                  sample=rec if nontriv and rec.get('value') else None)
         if 'error' in rec:
             chk.violation(f'closure-run:{n}:exception', f"{n}: literal set {rec['lits']} on {rec['subject']} raised {rec['error']}",
@@ -129,14 +129,14 @@ def run(args) -> int:
             idx = order_nod.index((l['lpp'], l['lnp']))
         want_closed = closes_v[idx]
         if rec['closed'] != want_closed or rec['branches'] != 1:
-            chk.violation(f'closure-run:{n}:closed-mismatch',
+            chk.violation(f'closure-run:{n}:closed-mismatch' + ('' if rec.get('copies', 1) == 1 and rec.get('build', 'sdw') == 'sdw' else f":{rec.get('build')}x{rec.get('copies')}"),
                           f"{n}: literal set {rec['lits']} on {rec['subject']}@{rec['world']}: branch closed={rec['closed']}, closure patterns say {want_closed}",
                           dict(kind='closure_case', expected_closed=want_closed, **rec))
             continue
         if not rec['closed'] and rec['lits']:
             rv = reads_v[idx]
             if not rv or rec.get('value') != rv[0] or not all(rec.get('sat', [])):
-                chk.violation(f'closure-run:{n}:read-value',
+                chk.violation(f'closure-run:{n}:read-value' + ('' if rec.get('copies', 1) == 1 and rec.get('build', 'sdw') == 'sdw' else f":{rec.get('build')}x{rec.get('copies')}"),
                               f"{n}: open literal set {rec['lits']} on {rec['subject']}: model reads {rec.get('value')} "
                               f"(node satisfaction {rec.get('sat')}), modelled read-off {rv}",
                               dict(kind='closure_case', expected_value=rv, **rec))
